@@ -254,7 +254,7 @@ Hypothesis uniq_parent : forall p1 p2 c1 c2 t, node p1 -> node p2 ->
   tchild V n p1 c1 = Some t -> tchild V n p2 c2 = Some t -> p1 = p2 /\ c1 = c2.
 Hypothesis nonroot_parent : forall t, node t -> t <> ROOT -> exists p c, node p /\ tchild V n p c = Some t.
 Hypothesis node_lt : forall t, node t -> t < n_nstates n.
-Hypothesis edges_nodup : forall s, NoDup (map fst (edges_of s)).
+Hypothesis edges_nodup : forall s, node s -> NoDup (map fst (edges_of s)).
 
 Definition occ (idmap : nmap N) (j : N) : Prop := exists s, s <> ROOT /\ nget s idmap = Some j.
 Definition Sealed (a : barr) (idmap : nmap N) (proc : list N) (B : N) : Prop :=
@@ -543,7 +543,7 @@ Proof.
   assert (Nsid : node sid) by (apply (di_node _ _ _ _ _ D); exact Hsin).
   assert (Fes : forall c ch, In (c, ch) es <-> tchild V n sid c = Some ch) by (intros c ch; apply edges_child; exact Nsid).
   assert (Hlab : forall c ch, In (c, ch) es -> c < 256) by (intros c ch; apply labels_byte).
-  pose proof (edges_nodup sid) as Hk. fold es in Hk.
+  pose proof (edges_nodup sid Nsid) as Hk. fold es in Hk.
   assert (Hv : NoDup chs).
   { unfold chs. apply nodup_map_in; [|apply NoDup_map_inv in Hk; exact Hk].
     intros [c1 t1] [c2 t2] H1 H2 E. cbn [snd] in E. subst t2. apply Fes in H1, H2.
